@@ -353,6 +353,8 @@ impl TransactionTracker {
             state.valid_savepoints.remove(&savepoint);
             state.persistent_savepoints.remove(&savepoint);
         }
+        #[cfg(redb_verif)]
+        crate::verif::pause("tracker.dealloc_savepoint.mid");
         self.deallocate_read_transaction(transaction);
     }
 
